@@ -1,6 +1,6 @@
 (** C14 -- an uncertainty is never negative, whatever path created or changed it. *)
 From Coq Require Import List ZArith QArith Qabs Bool.
-From QV Require Import Base.Py Model.Uncert Proofs.Uncert.
+From QV Require Import Base.Py Model.MC Proofs.MCMode Proofs.UncertMode Model.Uncert Proofs.Uncert.
 Import ListNotations.
 
 (** every accepted Measurement(value, error) has a non-negative uncertainty ... *)
@@ -53,6 +53,22 @@ Print Assumptions C14_negative_rejected.
 
 (** non-vacuity: a calculated quantity of value -10 +/- 1 gets the relative uncertainty 1/10 (becomes a
     measurement with uncertainty 1), then a negative uncertainty is rejected and nothing changes *)
+(** calculated results under Monte Carlo, "mode with confidence" statistic: the reported uncertainty is k bin widths,
+    hence >= 0 for every count vector and every non-decreasing pair of edges around the fullest bin ([find_mode] is
+    the model of utils.find_mode_and_uncertainty, Model/MC.v, run against the code by C14's and C16's correspondence) *)
+Theorem C14_mode_uncertainty : forall n bins conf v e,
+  n <> [] -> MCMode.nonneg n -> (conf <= 1)%Q ->
+  (MC.qnth bins (MC.argmax n) <= MC.qnth bins (S (MC.argmax n)))%Q ->
+  MC.find_mode n bins conf = Some (v, e) -> (0 <= e)%Q.
+Proof. exact find_mode_error_nonneg. Qed.
+Print Assumptions C14_mode_uncertainty.
+
+(** ... in particular for the histogram the library bins (100 equal-width bins over [min, max] of ANY sample list) *)
+Theorem C14_mode_uncertainty_of_samples : forall xs conf, (conf <= 1)%Q ->
+  match MC.r_error (MC.mode_rep xs conf) with MC.EExact e => (0 <= e)%Q | MC.ESqrt _ => False | MC.EUndef => False end.
+Proof. exact mode_rep_error_nonneg. Qed.
+Print Assumptions C14_mode_uncertainty_of_samples.
+
 Example C14_nonvacuous :
   let q0 := mk KDerived (-10) 1 no_stats in
   Inv q0 /\
